@@ -206,6 +206,8 @@ func (db *DB) Put(key []byte, value []byte) error {
 	}
 
 	// 更新索引, 并维护无效数据量
+	// 索引需持有 key 的独立副本, 调用方可能复用传入的切片
+	key = append([]byte(nil), key...)
 	if oldPos := db.index.Put(key, pos); oldPos != nil {
 		atomic.AddInt64(&db.reclaimSize, int64(oldPos.Size))
 	}
